@@ -30,7 +30,9 @@ SPEC = dict(
     rule="one call diff(e, x, cache) per op line; e = random real expression built through the public API and dumped "
          "(families = tags: rational, elementary, inverse, radical, sympow, special, fsym, abs, mixed, shared-subterm "
          "(a subterm occurring several times: exercises the visited table), binder (Derivative and Subs nodes as "
-         "*inputs*, built structurally without calling diff/subs), poly-univariate / poly-multivariate (UIntPoly, "
+         "*inputs*, built structurally without calling diff/subs), binder-bound-var (Subs objects that bind the differentiation "
+         "variable itself with a point that still depends on it), " 
+         "poly-univariate / poly-multivariate (UIntPoly, "
          "URatPoly, UExprPoly, MIntPoly: ops upoly/mpoly), piecewise (op pw)); x in {x,y,z} mostly occurring, ~8% "
          "absent; cache flag random; corpus/C10/rules.ops pins one op per coded rule and every finding. distinct = distinct op lines; non-trivial = all. impl_stats: "
          "value_checked_exact / value_checked_numeric / value_not_checked = how the value oracle judged each case, "
